@@ -155,7 +155,10 @@ def st_writer_library(max_blocks=8):
         st.sampled_from(["{v}", '"v"', "2020", "s # {x}", "{}", "{multi\nline value}", "{a {nested} b}", "{é ü}"]),
         st.text(alphabet="abc {}\"#,=\n", max_size=12),
     )
-    raw = st.one_of(st.sampled_from(["@a{k,", "@a{k, x = {y}\n@", "line1\nline2\nline3", "@comment{x", "x"]), st.text(alphabet="ab@{},=\n ", min_size=1, max_size=20).map(lambda s: s.strip("\n") or "r"))
+    raw = st.one_of(st.sampled_from(["@a{k,", "@a{k, x = {y}\n@", "line1\nline2\nline3", "@comment{x", "x"]), st.text(alphabet="ab@{},=\n ", min_size=1, max_size=20).map(lambda s: s.strip("\n") or "r"),
+                    # verbatim emission also for raws whose line count is ambiguous (CRLF, trailing / exotic line breaks, empty)
+                    st.sampled_from(["@a{k,\r\n x = {y}\r\n", "@a{k,\n", "", "\n", "a\x0cb", "a\x85b\u2028c", "@a{k, x\r y", "two\n\n"]),
+                    st.text(alphabet="ab@{},=\n\r\x0c ", max_size=12))
     line = st.integers(0, 50)
     fields = st.lists(st.tuples(fkey, val, line).map(list), max_size=6)
     entry = st.fixed_dictionaries({"t": st.just("entry"), "type": st.sampled_from(["article", "book", "misc", "Article"]), "key": key, "fields": fields, "line": line, "raw": raw})
